@@ -25,7 +25,10 @@ EXTENDS Naturals, FiniteSets, TLC
 CONSTANTS Modules,      \* module names
           FaultKinds,   \* the operators of the fault model
           SyntaxKinds,  \* the kinds that are already lexical/syntactic errors (reported by the parser)
-          MaxFaults     \* bound on the number of planted faults (model checking only)
+          MaxFaults,    \* bound on the number of planted faults (model checking only)
+          LexicalChecked \* TRUE: the specified compiler.  FALSE: the lexer as found on the pinned tree, which lets an
+                         \* out-of-range integer literal through (known finding) -- PipelineAsIs.cfg shows that
+                         \* InvC06 then fails, i.e. that the invariants can fail at all
 
 VARIABLES phase, faults, syn, errs, artefact
 vars == <<phase, faults, syn, errs, artefact>>
@@ -69,10 +72,13 @@ Init == /\ phase = "Start"
         /\ faults \in FaultSets
         /\ syn = {} /\ errs = {} /\ artefact = FALSE
 
+\* the faults the front end gets to see
+Visible(F) == IF LexicalChecked THEN F ELSE { f \in F : f[1] \notin SyntaxKinds }
+
 \* the parser reports the lexical faults, each in its module, and nothing else
 Parse == /\ phase = "Start"
          /\ phase' = "Parsed"
-         /\ syn' = SynModules(faults)
+         /\ syn' = SynModules(Visible(faults))
          /\ UNCHANGED <<faults, errs, artefact>>
 
 \* the checker may report any set of diagnostics (consequent errors in other modules are allowed) as long as
@@ -84,7 +90,7 @@ AllowedErrs(F, S) ==
 
 Check == /\ phase = "Parsed"
          /\ phase' = "Checked"
-         /\ errs' \in AllowedErrs(faults, syn)
+         /\ errs' \in AllowedErrs(Visible(faults), syn)
          /\ UNCHANGED <<faults, syn, artefact>>
 
 Emit == /\ phase = "Checked" /\ errs = {}
